@@ -55,6 +55,10 @@ func main() {
 	case "C01", "C07", "C13":
 		genJwsRead(r, *prop)
 		genCoseRead(r, *prop)
+		if *prop == "C13" {
+			// the same attributes seen from the signing side: through the returned bytes and on the object that signed
+			genSign(r, *prop)
+		}
 	case "C04":
 		genC04(r)
 	case "C05":
